@@ -7,6 +7,7 @@ require (
 	github.com/ava-labs/avalanchego v1.13.1-rc.0.0.20250414210208-c8b3f57d2a25
 	github.com/ava-labs/hypersdk v0.0.0-00010101000000-000000000000
 	github.com/ava-labs/hypersdk/examples/morpheusvm v0.0.0-00010101000000-000000000000
+	github.com/prometheus/client_golang v1.16.0
 )
 
 require (
@@ -27,7 +28,6 @@ require (
 	github.com/matttproud/golang_protobuf_extensions v1.0.4 // indirect
 	github.com/mr-tron/base58 v1.2.0 // indirect
 	github.com/onsi/ginkgo/v2 v2.13.1 // indirect
-	github.com/prometheus/client_golang v1.16.0 // indirect
 	github.com/prometheus/client_model v0.3.0 // indirect
 	github.com/prometheus/common v0.42.0 // indirect
 	github.com/prometheus/procfs v0.10.1 // indirect
